@@ -11,13 +11,13 @@ Record obs := { b_tag : Z; b_nums : list Z; b_blobs : list (list Z) }.
 Definition T_F := 1. Definition T_Q := 2. Definition T_N := 3. Definition T_K := 4. Definition T_V := 5.
 Definition T_W := 6. Definition T_R := 7. Definition T_B := 8. Definition T_G := 9. Definition T_S := 10.
 Definition T_SD := 11. Definition T_SI := 12. Definition T_SY := 13. Definition T_SX := 14.
-Definition T_OOB := 15. Definition T_RNONE := 16. Definition T_UNKNOWN := 17.
+Definition T_OOB := 15. Definition T_RNONE := 16. Definition T_UNKNOWN := 17. Definition T_X := 18.
 
 Definition ob (t : Z) (n : list Z) (b : list (list Z)) : obs := {| b_tag := t; b_nums := n; b_blobs := b |}.
 
 Record world := { w_enc : enc; w_dec : list (Z * dstate); w_pk : list (Z * packet);
-                  w_ob : list (Z * (Z * payload)); w_frames : list (list Z); w_st : status }.
-Definition world0 : world := {| w_enc := enc0; w_dec := []; w_pk := []; w_ob := []; w_frames := []; w_st := [] |}.
+                  w_ob : list (Z * (Z * payload)); w_frames : list (list Z); w_st : status; w_st2 : status }.
+Definition world0 : world := {| w_enc := enc0; w_dec := []; w_pk := []; w_ob := []; w_frames := []; w_st := []; w_st2 := [] |}.
 
 Fixpoint aget {A} (k : Z) (l : list (Z * A)) : option A :=
   match l with [] => None | (k', v) :: t => if k =? k' then Some v else aget k t end.
@@ -31,15 +31,15 @@ Definition b2z (b : bool) : Z := if b then 1 else 0.
 
 Definition getpk (w : world) (i : Z) : packet := match aget i (w_pk w) with Some p => p | None => default_packet end.
 Definition setpk (w : world) (i : Z) (p : packet) : world :=
-  {| w_enc := w_enc w; w_dec := w_dec w; w_pk := aset i p (w_pk w); w_ob := w_ob w; w_frames := w_frames w; w_st := w_st w |}.
+  {| w_enc := w_enc w; w_dec := w_dec w; w_pk := aset i p (w_pk w); w_ob := w_ob w; w_frames := w_frames w; w_st := w_st w; w_st2 := w_st2 w |}.
 Definition setob (w : world) (i : Z) (k : Z) (p : payload) : world :=
-  {| w_enc := w_enc w; w_dec := w_dec w; w_pk := w_pk w; w_ob := aset i (k, p) (w_ob w); w_frames := w_frames w; w_st := w_st w |}.
+  {| w_enc := w_enc w; w_dec := w_dec w; w_pk := w_pk w; w_ob := aset i (k, p) (w_ob w); w_frames := w_frames w; w_st := w_st w; w_st2 := w_st2 w |}.
 Definition setenc (w : world) (e : enc) : world :=
-  {| w_enc := e; w_dec := w_dec w; w_pk := w_pk w; w_ob := w_ob w; w_frames := w_frames w; w_st := w_st w |}.
+  {| w_enc := e; w_dec := w_dec w; w_pk := w_pk w; w_ob := w_ob w; w_frames := w_frames w; w_st := w_st w; w_st2 := w_st2 w |}.
 Definition setst (w : world) (s : status) : world :=
-  {| w_enc := w_enc w; w_dec := w_dec w; w_pk := w_pk w; w_ob := w_ob w; w_frames := w_frames w; w_st := s |}.
+  {| w_enc := w_enc w; w_dec := w_dec w; w_pk := w_pk w; w_ob := w_ob w; w_frames := w_frames w; w_st := s; w_st2 := w_st2 w |}.
 Definition setdec (w : world) (k : Z) (d : dstate) : world :=
-  {| w_enc := w_enc w; w_dec := aset k d (w_dec w); w_pk := w_pk w; w_ob := w_ob w; w_frames := w_frames w; w_st := w_st w |}.
+  {| w_enc := w_enc w; w_dec := aset k d (w_dec w); w_pk := w_pk w; w_ob := w_ob w; w_frames := w_frames w; w_st := w_st w; w_st2 := w_st2 w |}.
 
 Definition k_obs (p : packet) : obs := let '(n, b) := obs_packet p in ob T_K n [b].
 
@@ -108,9 +108,33 @@ Definition step (w : world) (o : op) : world * list obs :=
     (* operator[] on the packet map creates missing slots *)
     let w0 := fold_left (fun w i => match aget i (w_pk w) with Some _ => w | None => setpk w i default_packet end) idxs w in
     let '(e', fs) := encode (w_enc w0) batch (n 0%nat) (n 1%nat) in
-    ({| w_enc := e'; w_dec := w_dec w0; w_pk := w_pk w0; w_ob := w_ob w0; w_frames := fs; w_st := w_st w0 |},
+    ({| w_enc := e'; w_dec := w_dec w0; w_pk := w_pk w0; w_ob := w_ob w0; w_frames := fs; w_st := w_st w0; w_st2 := w_st2 w0 |},
      (if c =? 42 then [] else map (fun f => ob T_F [] [f]) fs) ++ [ob T_Q [zlen fs; e_seq e'] []])
   else if c =? 11 then (setdec w (n 0%nat) [], [])
+  else if c =? 49 then
+    (* Status copy: the other tracker object becomes a copy of the selected one *)
+    ({| w_enc := w_enc w; w_dec := w_dec w; w_pk := w_pk w; w_ob := w_ob w; w_frames := w_frames w; w_st := w_st w; w_st2 := w_st w |}, [])
+  else if c =? 50 then
+    (* select the other tracker object for the following status operations *)
+    ({| w_enc := w_enc w; w_dec := w_dec w; w_pk := w_pk w; w_ob := w_ob w; w_frames := w_frames w; w_st := w_st2 w; w_st2 := w_st w |}, [])
+  else if c =? 48 then
+    (* what the static TECMP decoder returned for three canned frames when it was called DURING STATIC INITIALISATION of the process
+       (before main, before the library's own translation units were initialised): the same as at any other time *)
+    (w, flat_map (fun f => snd (feed w 999 f)) [[0; 7; 0; 0; 3; 1; 0; 0; 0; 0; 0; 0; 17; 34; 51; 68; 1; 2; 3; 4; 5; 6; 7; 8; 0; 20; 0; 0; 1; 2; 3; 4; 5; 6; 7; 8; 9; 10; 11; 12; 13; 14; 15; 16; 17; 18; 19; 20];
+                                                 [0; 9; 0; 0; 3; 3; 0; 2; 0; 0; 0; 0; 0; 0; 0; 5; 0; 0; 0; 0; 0; 0; 0; 77; 0; 12; 0; 0; 0; 0; 1; 35; 4; 9; 8; 7; 6; 0; 0; 0];
+                                                 [0; 7; 0; 0; 3; 1; 0; 0; 0; 0; 0; 0; 0; 0; 0; 1; 0; 0; 0; 0; 0; 0; 0; 2; 0; 10; 0; 0; 0; 0; 0; 0; 0; 0; 0; 0; 0; 0]])
+  else if c =? 47 then
+    (* an encode() call that leaves by exception: minimum frame size SIZE_MAX makes the first resize-to-minimum throw
+       std::length_error. That happens when the FIRST frame is closed (by the next frame being opened, or at the end), i.e. after
+       exactly one sequence number was consumed; nothing is returned. An empty batch builds no frame and returns normally. *)
+    let idxs := skipn 1 (o_nums o) in
+    let w0 := fold_left (fun w i => match aget i (w_pk w) with Some _ => w | None => setpk w i default_packet end) idxs w in
+    match idxs with
+    | [] => (w0, [ob T_Q [0; e_seq (w_enc w0)] []])
+    | _ => let e := w_enc w0 in
+           let e' := {| e_dev := e_dev e; e_stream := e_stream e; e_seq := (e_seq e + 1) mod 65536 |} in
+           (setenc w0 e', [ob T_X [e_seq e'] []])
+    end
   else if c =? 46 then
     (* decode(nullptr, n): returns nothing, changes nothing *)
     let st := match aget (n 0%nat) (w_dec w) with Some s => s | None => [] end in
@@ -121,7 +145,7 @@ Definition step (w : world) (o : op) : world * list obs :=
   else if c =? 12 then feed w (n 0%nat) (b 0%nat)
   else if c =? 13 then feed_all w (n 0%nat) (w_frames w)
   else if c =? 14 then ({| w_enc := w_enc w; w_dec := adel (n 0%nat) (w_dec w); w_pk := w_pk w; w_ob := w_ob w;
-                           w_frames := w_frames w; w_st := w_st w |}, [])
+                           w_frames := w_frames w; w_st := w_st w; w_st2 := w_st2 w |}, [])
   else if c =? 15 then
     (w, [ob T_V [b2z (if n 0%nat =? 0 then valid_packet (b 0%nat) (zlen (b 0%nat)) else valid_kind (n 0%nat) (b 0%nat))] []])
   else if c =? 16 then
